@@ -175,9 +175,8 @@ func genCluster(seed uint64, tier, variant string) any {
 			if cl.Stable && a != sh.Master && r.IntN(6) == 0 {
 				o.Health = pick(r, "fail", "loading")
 			}
-			if cl.Stable && a == sh.Master && r.IntN(8) == 0 {
-				o.Endpoint = pick(r, "empty", "null")
-			}
+			// (primaries keep a real endpoint: a MOVED that names a node with an empty host (":7004") is not followed by
+			// rueidis - it dials ":7004" - which is outside the properties checked here; see DESIGN.md)
 			cl.Nodes[a] = o
 		}
 	}
@@ -414,7 +413,14 @@ func genCluster(seed uint64, tier, variant string) any {
 				}
 				p.Ghosts = append(p.Ghosts, GhostSpec{Kind: pick(r, "migrate-finish", "migrate-finish", "migrate-cancel"), MinStep: g.MinStep + 10 + r.IntN(80), Argv: []string{strconv.Itoa(k.slot)}})
 			case "failover":
-				p.Ghosts = append(p.Ghosts, GhostSpec{Kind: "failover", MinStep: g.MinStep, Argv: []string{strconv.Itoa(r.IntN(nsh)), pick(r, "down", "up")}})
+				// ("down": the old primary is unreachable for a while and comes back as a replica; a primary that never
+				// comes back makes DoMulti retry read-only commands against its dead address for ever - the batch retry
+				// loop does not re-route - which no listed property covers; see DESIGN.md)
+				how := pick(r, "down", "up")
+				p.Ghosts = append(p.Ghosts, GhostSpec{Kind: "failover", MinStep: g.MinStep, Argv: []string{strconv.Itoa(r.IntN(nsh)), how}})
+				if how == "down" {
+					p.Ghosts = append(p.Ghosts, GhostSpec{Kind: "nodes-up", MinStep: g.MinStep + 10 + r.IntN(150)})
+				}
 			case "down":
 				p.Ghosts = append(p.Ghosts, GhostSpec{Kind: "cluster-down", MinStep: g.MinStep, Argv: []string{"on"}})
 				p.Ghosts = append(p.Ghosts, GhostSpec{Kind: "cluster-down", MinStep: g.MinStep + 5 + r.IntN(40), Argv: []string{"off"}})
@@ -601,7 +607,9 @@ func (ce *clusterEnv) ghost(g GhostSpec) func(*sched.Sim) {
 		}
 	case "freeze":
 		return func(s *sched.Sim) {
-			ms := c.Members()
+			// only primaries: a stale primary merely redirects; a stale replica would go on serving reads of slots whose
+			// data the model has already moved to another shard's dataset (a limit of the shared-dataset model)
+			ms := c.Masters()
 			c.FreezeView(ms[num(0)%len(ms)])
 		}
 	case "sync-all":
@@ -650,6 +658,8 @@ func (ce *clusterEnv) ghost(g GhostSpec) func(*sched.Sim) {
 				}
 			}
 		}
+	case "nodes-up":
+		return func(s *sched.Sim) { ce.nodesUp() }
 	case "cluster-down":
 		return func(s *sched.Sim) { c.SetClusterDown(g.Argv[0] == "on") }
 	case "loading":
@@ -661,6 +671,20 @@ func (ce *clusterEnv) ghost(g GhostSpec) func(*sched.Sim) {
 	return nil
 }
 
+// nodesUp ends every outage of the model: nodes accept connections again, the cluster state is ok, views are in sync.
+func (ce *clusterEnv) nodesUp() {
+	c := ce.cluster
+	for _, a := range c.Members() {
+		if ce.sim.W.Nodes[a].Down {
+			c.SetNodeDown(a, false)
+			c.SetNodeFailed(a, false)
+		}
+		ce.sim.W.Nodes[a].Loading = 0
+	}
+	c.SetClusterDown(false)
+	c.SyncAll()
+}
+
 func execCluster(t *testing.T, plan any, out *Outcome) {
 	cp := plan.(*ClusterPlan)
 	var ce *clusterEnv
@@ -668,14 +692,17 @@ func execCluster(t *testing.T, plan any, out *Outcome) {
 	defer randState.stepMode.Store(false)
 	e := standardRun(t, out.Seed, &cp.Plan, out, runHooks{
 		noDefaultNode: true,
+		hashMainPhase: true,
 		beforeClient: func(e *env) {
 			ce = &clusterEnv{env: e, cp: cp}
 			muxRegReset(16)
+			richIdent.Store(true)
 			ce.build()
 		},
 		newClient: func(e *env, i int) (Client, error) { return NewClient(ce.clientOption()) },
 		afterSetup: func(e *env) { ce.checkMapping() },
 		ghost:      func(e *env, g GhostSpec) func(*sched.Sim) { return ce.ghost(g) },
+		onStuck:    func(e *env) { ce.nodesUp() },
 		extraCall:  clusterHelperCall,
 	})
 	if out.HarnessErr != "" {
@@ -829,6 +856,11 @@ func (ce *clusterEnv) judge() {
 			anyFault = true
 		}
 	}
+	for _, g := range s.Ghosts {
+		if g.Done && strings.HasPrefix(g.Name, "failover") && strings.HasSuffix(g.Name, "down") {
+			anyFault = true // the old primary's connections were reset and its address refused dials for a while
+		}
+	}
 	faultFree := cl.FaultFree && !anyFault
 	// per connection command lists
 	byConn := map[int][]*fakeredis.Exec{}
@@ -918,7 +950,6 @@ func (ce *clusterEnv) judge() {
 			return
 		}
 		// C28 bookkeeping for the whole call: RetryDelay answers by attempt number
-		nonNegByAttempt := map[int]bool{}
 		negSeen := false
 		callRetryable := true
 		for _, c := range spec.Cmds {
@@ -927,9 +958,7 @@ func (ce *clusterEnv) judge() {
 			}
 			if uid, ok := uidOf(c.Argv); ok {
 				for _, d := range delaysByUID[uid] {
-					if d.Delay >= 0 {
-						nonNegByAttempt[d.Attempts] = true
-					} else {
+					if d.Delay < 0 {
 						negSeen = true
 					}
 				}
@@ -953,7 +982,13 @@ func (ce *clusterEnv) judge() {
 				}
 			} else {
 				exp, known := expectedReply(argv)
-				if inTx {
+				if inTx && !txOpened(spec.Cmds, res.Res, i) {
+					// the server refused MULTI itself (LOADING, CLUSTERDOWN...): what follows is not a transaction
+					out.notJudged("transaction-not-opened-by-server")
+					known = false
+					inTxJudge := false
+					_ = inTxJudge
+				} else if inTx {
 					switch tx {
 					case "queued":
 						exp, known = resp.Simple("QUEUED"), true
@@ -987,7 +1022,12 @@ func (ce *clusterEnv) judge() {
 						out.judged("error-reply-under-change")
 					}
 				default:
-					out.violate(prop, "wrong-reply", "task %d call %d cmd %d %q: got %s want %s", task, rec.Index, i, truncArgv(argv), truncStr(r.V.String(), 300), truncStr(normalize(exp, 3).String(), 300))
+					dbg := ""
+					if len(att) > 0 {
+						lx := att[len(att)-1].ex
+						dbg = "; attempts " + attemptNodes(att) + "; last connection carried " + connTail(byConn[lx.Conn], minInt(connIdx[lx]+3, len(byConn[lx.Conn])-1), 9)
+					}
+					out.violate(prop, "wrong-reply", "task %d call %d cmd %d %q: got %s want %s%s", task, rec.Index, i, truncArgv(argv), truncStr(r.V.String(), 300), truncStr(normalize(exp, 3).String(), 300), dbg)
 				}
 			}
 			if !hasUID || len(att) == 0 {
@@ -1017,7 +1057,7 @@ func (ce *clusterEnv) judge() {
 				default:
 					out.violate("C19", "first-attempt-wrong-node", "task %d call %d cmd %d %q (slot %d, owner %s) was first sent to %s", task, rec.Index, i, truncArgv(argv), slot, owner, node)
 				}
-				if len(att) > 1 && !cl.ReplicaOnly {
+				if len(att) > 1 && !cl.ReplicaOnly && !toRep {
 					out.violate("C19", "resent-in-stable-plan", "task %d call %d cmd %d %q reached nodes %d times in a stable, fault-free plan: %s", task, rec.Index, i, truncArgv(argv), len(att), attemptNodes(att))
 				}
 			}
@@ -1032,14 +1072,14 @@ func (ce *clusterEnv) judge() {
 					if b.ex.Node != a.to {
 						// a transport failure between the redirect and the re-send may legitimately change the route
 						if faultFree && !intervening(att, j) {
-							out.violate("C19", "redirect-not-followed", "task %d call %d cmd %d %q: %s answered %s %s but the next attempt went to %s", task, rec.Index, i, truncArgv(argv), a.ex.Node, a.redirect, a.to, b.ex.Node)
+							out.violate("C19", "redirect-not-followed", "task %d call %d cmd %d %q: %s answered %s %s but the next attempt went to %s (%s)", task, rec.Index, i, truncArgv(argv), a.ex.Node, a.redirect, a.to, b.ex.Node, attemptNodes(att))
 						}
 					} else {
 						out.judged("redirect-followed")
 					}
-					if a.redirect == "ASK" && b.ex.Node == a.to {
+					if a.redirect == "ASK" && b.ex.Node == a.to && faultFree {
 						if !precededByAsking(byConn[b.ex.Conn], connIdx[b.ex]) {
-							out.violate("C19", "ask-without-asking", "task %d call %d cmd %d %q: sent to %s after ASK without ASKING in front of it on that connection", task, rec.Index, i, truncArgv(argv), b.ex.Node)
+							out.violate("C19", "ask-without-asking", "task %d call %d cmd %d %q: sent to %s after ASK without ASKING in front of it on that connection; the connection carried %s", task, rec.Index, i, truncArgv(argv), b.ex.Node, connTail(byConn[b.ex.Conn], connIdx[b.ex], 7))
 						} else {
 							out.judged("asking-precedes")
 						}
@@ -1048,13 +1088,14 @@ func (ce *clusterEnv) judge() {
 					retrySends++
 				}
 			}
-			if cl.MaxMoved > 0 && followed > cl.MaxMoved {
-				out.violate("C19", "too-many-redirects", "task %d call %d cmd %d %q followed %d redirects with MaxMovedRedirections=%d", task, rec.Index, i, truncArgv(argv), followed, cl.MaxMoved)
+			if cl.MaxMoved > 0 && followed > cl.MaxMoved && faultFree {
+				out.violate("C19", "too-many-redirects", "task %d call %d cmd %d %q followed %d redirects with MaxMovedRedirections=%d: %s", task, rec.Index, i, truncArgv(argv), followed, cl.MaxMoved, attemptNodes(att))
 			}
 			last := att[len(att)-1]
 			if last.redirect != "" && faultFree && !ctxEnded && r.Err == "" {
 				// the client stopped at a redirect: allowed only when the limit is reached
-				if cl.MaxMoved == 0 || followed < cl.MaxMoved {
+				if cl.MaxMoved == 0 || (followed < cl.MaxMoved && (spec.Kind == "do" || spec.Kind == "cache")) {
+					// (for batches the limit counts rounds of the whole call, not redirects of one command)
 					if !inTx {
 						out.violate("C19", "redirect-returned-to-caller", "task %d call %d cmd %d %q: %s %s was not followed (followed so far %d, MaxMovedRedirections=%d), result %s", task, rec.Index, i, truncArgv(argv), last.redirect, last.to, followed, cl.MaxMoved, truncStr(r.V.String(), 120))
 					}
@@ -1121,7 +1162,7 @@ func (ce *clusterEnv) judge() {
 				}
 			}
 			// ---- C28 (cluster clause) ----
-			if retrySends > 0 {
+			if retrySends > 0 && !inTx {
 				out.probe("command-re-sent-after-error")
 				retryable := c.Flag == "ro" || c.Flag == "retry"
 				switch {
@@ -1130,12 +1171,17 @@ func (ce *clusterEnv) judge() {
 				case !retryable && !inTx:
 					out.violate("C28", "unsafe-retry", "task %d call %d cmd %d %q (flag %q) was re-sent %d time(s) after an error (nodes %s)", task, rec.Index, i, truncArgv(argv), c.Flag, retrySends, attemptNodes(att))
 				case len(ce.plan.Opt.RetryDelaysMs) > 0 && !inTx:
-					// the k-th re-send needs a non-negative RetryDelay answer for attempt k of this call
-					for k := 1; k <= retrySends; k++ {
-						if !nonNegByAttempt[k] {
-							out.violate("C28", "retry-without-policy", "task %d call %d cmd %d %q was re-sent %d time(s) but RetryDelay never returned a non-negative delay for attempt %d of this call (negative answer seen: %v; nodes %s)", task, rec.Index, i, truncArgv(argv), retrySends, k, negSeen, attemptNodes(att))
-							break
+					// every re-send after an error needs its own non-negative RetryDelay answer for this command (the function
+					// is consulted for every failing command of every round; a round that also had redirects is repeated
+					// without waiting, so the attempt number passed to the function does not identify the round)
+					nonNeg := 0
+					for _, d := range delaysByUID[uid] {
+						if d.Delay >= 0 {
+							nonNeg++
 						}
+					}
+					if retrySends > nonNeg {
+						out.violate("C28", "retry-without-policy", "task %d call %d cmd %d %q was re-sent %d time(s) after errors but RetryDelay returned a non-negative delay for it only %d time(s) (negative answer seen in this call: %v; nodes %s)", task, rec.Index, i, truncArgv(argv), retrySends, nonNeg, negSeen, attemptNodes(att))
 					}
 					out.judged("retry-judged")
 				}
@@ -1160,6 +1206,24 @@ func (ce *clusterEnv) judge() {
 			}
 		}
 	}
+}
+
+func connTail(l []*fakeredis.Exec, i, n int) string {
+	var sb strings.Builder
+	for j := maxInt(0, i-n); j <= i && j < len(l); j++ {
+		sb.WriteString(fmt.Sprintf("[%s => %s] ", truncStr(strings.Join(l[j].Argv, " "), 40), truncStr(l[j].Reply.String(), 30)))
+	}
+	return sb.String()
+}
+
+// txOpened reports whether the MULTI in front of command i of the batch was answered with OK.
+func txOpened(cmds []CmdSpec, res []Res, i int) bool {
+	for j := i; j >= 0; j-- {
+		if len(cmds[j].Argv) == 1 && strings.ToUpper(cmds[j].Argv[0]) == "MULTI" {
+			return res[j].Err == "" && res[j].V.T == '+' && res[j].V.S == "OK"
+		}
+	}
+	return false
 }
 
 func failoverBefore(s *sched.Sim, step int) bool {
@@ -1198,10 +1262,20 @@ func intervening(att []*clAttempt, j int) bool { return false }
 // precededByAsking walks back from command i of a connection over the commands of the same transaction block
 // (queued commands and their MULTI) and reports whether ASKING stands in front.
 func precededByAsking(l []*fakeredis.Exec, i int) bool {
+	sameCall := func(a, b []string) bool {
+		ua, ok1 := uidOf(a)
+		ub, ok2 := uidOf(b)
+		if !ok1 || !ok2 {
+			return false
+		}
+		ta, ca, _, ok3 := parseUID(ua)
+		tb, cb, _, ok4 := parseUID(ub)
+		return ok3 && ok4 && ta == tb && ca == cb
+	}
 	j := i - 1
 	for j >= 0 {
 		name := strings.ToUpper(l[j].Argv[0])
-		if l[j].Queued || name == "MULTI" || (name == "PTTL" && l[j].Queued) {
+		if name == "MULTI" || name == "PTTL" || sameCall(l[j].Argv, l[i].Argv) {
 			j--
 			continue
 		}
@@ -1317,6 +1391,22 @@ func (ce *clusterEnv) judgeHelper(task int, spec CallSpec, rec *sched.CallRec, r
 				}
 				continue
 			}
+			if !ce.cp.Cl.Stable {
+				// under topology change a static key may be stranded on a former owner (cancelled migration): nil is
+				// then the owner's honest answer; the preloaded value is the only other possibility
+				pre := resp.Nil()
+				for _, pl := range ce.cp.Cl.Preload {
+					if pl[1] == k {
+						pre = resp.Bulk(pl[2])
+					}
+				}
+				if v.V.T == '_' || valEqual(v.V, pre) {
+					out.judged("helper-entry")
+				} else {
+					out.violate("C31", "helper-wrong-value", "task %d call %d %s: key %q -> %s, the only value ever stored under it is %s", task, rec.Index, spec.Kind, k, truncStr(v.V.String(), 120), pre.String())
+				}
+				continue
+			}
 			if !valEqual(v.V, want) {
 				out.violate("C31", "helper-wrong-value", "task %d call %d %s: key %q -> %s, the model stores %s", task, rec.Index, spec.Kind, k, truncStr(v.V.String(), 120), want.String())
 			} else {
@@ -1349,11 +1439,18 @@ func (ce *clusterEnv) judgeHelper(task int, spec CallSpec, rec *sched.CallRec, r
 				continue
 			}
 			// success reported for k: the model must agree (these keys belong to this call alone)
-			o := ce.cluster.Owner(fakeredis.KeySlot(k))
-			if o == nil {
+			// (looked up on every node: under topology change a key may live on a former owner)
+			sv, has := "", false
+			for _, a := range ce.sim.W.NodeAddrs() {
+				if v, ok := ce.sim.W.Nodes[a].DBs.Lookup(k); ok {
+					sv, has = v, true
+				}
+			}
+			if !ce.cp.Cl.Stable {
+				// a key stranded on a former owner by a cancelled migration is not reached by the owner's DEL/SET
+				out.notJudged("helper-effect-under-topology-change")
 				continue
 			}
-			sv, has := o.DBs.Lookup(k)
 			if spec.Kind == "mdel" && has {
 				out.violate("C31", "helper-effect", "task %d call %d MDel reported success for %q but the model still stores %q", task, rec.Index, k, sv)
 			} else if spec.Kind == "mset1" && (!has || sv != spec.Cmds[0].Argv[1]) {
